@@ -334,6 +334,33 @@ class Env:
                 memo[small] = r
         return r
 
+    def ev_times_minus_one(self, t):
+        """Same as ev (pint's reading of integer literals) but unary minus is `x * -1`. No memo."""
+        mode = self.modes[0]
+        k = t[0]
+        if k == "n":
+            return ("ok", self.number(t[1], mode))
+        if k == "u":
+            return ("ok", self.unit[t[1]])
+        a = self.ev_times_minus_one(t[1])
+        if a[0] != "ok":
+            return a
+        try:
+            if k == "neg":
+                return ("ok", a[1] * -1)
+            if k == "pos":
+                return ("ok", a[1])
+            b = self.ev_times_minus_one(t[2])
+            if b[0] != "ok":
+                return b
+            if k == "**":
+                return ("ok", self.gpow(a[1], b[1]))
+            return ("ok", BIN[k](a[1], b[1]))
+        except Skip:
+            return ("skip",)
+        except Exception as e:  # noqa: BLE001
+            return ("err", type(e).__name__)
+
     def _ev(self, t, mode):
         k = t[0]
         a = self.ev(t[1], mode)
@@ -632,6 +659,19 @@ class Comparator:
                 rec.violation("group-glued-to-operand-is-multiplied-before-neighbouring-operators", wit,
                               unfinished_operator_on_the_left=pend, power_operator_after_group=pw)
                 return
+        # attribution by experiment: pint evaluates unary minus as `x * -1`, Python as `-x`; the two
+        # differ only in the sign of a Decimal zero (visible after a later 1/x or power)
+        if "neg" in self.L.ops_of(t):
+            try:
+                alt_want = guarded(lambda tt: env.ev_times_minus_one(tt), t, 3.0)
+            except ParseTimeout:
+                alt_want = ("skip",)
+            if alt_want[0] in ("ok", "err") and got[0] in ("ok", "err") and \
+                    outcome_diff(got, alt_want, Q) in (None, "rounding"):
+                wit["kind"] = kind
+                wit["value_with_neg_as_times_minus_one"] = short(alt_want[1:])
+                rec.violation("unary-minus-evaluated-as-multiplication-by-minus-one", wit, nit=env.nitname)
+                return
         rec.violation("parse-differs-from-tree", wit, kind=kind, nit=env.nitname, workload=workload,
                       style=stname, features=",".join(sorted(used)), root=t[0],
                       adjacency=",".join(sorted(self.L.adjacencies(t))[:6]))
@@ -753,6 +793,24 @@ def wl_full(spec, rec, cmp, envs, rng):
             if mine(j, spec):
                 cmp.check(t, env, nrandom=0, workload="full4", styles=[cmp.fixed[(j // spec["parts"]) % 6]])
         rec.count("full4_enumerated", j if spec["part"] == 0 else 0)
+
+
+def wl_directed(spec, rec, cmp, envs, rng):
+    """A few trees that random generation reaches only rarely (kept so that a known mechanism is
+    re-observed by every run rather than once in a few hundred thousand trees)."""
+    if spec["part"] > 1:
+        return
+    z = ("-", ("n", "0.5"), ("n", "0.5"))
+    trees = [
+        ("**", ("**", ("neg", z), ("neg", ("n", "3"))), ("n", "0.5")),        # sign of a Decimal zero
+        ("/", ("n", "2"), ("**", ("neg", ("*", ("u", "m"), z)), ("neg", ("n", "3")))),
+        ("**", ("neg", ("n", "2")), ("n", "2")), ("neg", ("**", ("n", "2"), ("n", "2"))),
+        ("**", ("n", "2"), ("**", ("n", "3"), ("n", "2"))), ("**", ("**", ("n", "2"), ("n", "3")), ("n", "2")),
+        ("//", ("neg", ("n", "3")), ("n", "2")), ("neg", ("//", ("n", "3"), ("n", "2"))),
+    ]
+    for t in trees:
+        for env in envs.values():
+            cmp.check(t, env, nrandom=2, workload="directed")
 
 
 def wl_skeleton(spec, rec, cmp, envs, rng):
@@ -1030,6 +1088,9 @@ def wl_truncations(spec, rec, cmp, envs, rng):
         if s in DIRECTED_DAMAGE:
             cands = [("drop-operand", DIRECTED_DAMAGE[s])]
         for kind, d in cands:
+            if "+/-" in d or "±" in d:
+                rec.count("truncation_forms_uncertainty_operator_skipped")   # a genuine '+/-' operator
+                continue
             try:
                 L.ref_parse(d)
                 rec.count("truncation_still_wellformed")
@@ -1185,7 +1246,7 @@ def run_shard(spec, rec):
     watch.events, watch.calls = [], []
 
     cmp = Comparator(rec, watch, envs, rng)
-    for wl in (wl_literals, wl_uncertainty, wl_words, wl_full, wl_skeleton, wl_random, wl_truncations, wl_fuzz):
+    for wl in (wl_literals, wl_uncertainty, wl_words, wl_directed, wl_full, wl_skeleton, wl_random, wl_truncations, wl_fuzz):
         try:
             wl(spec, rec, cmp, envs, random.Random(rng.getrandbits(48)))
         except Exception:  # noqa: BLE001
